@@ -7,8 +7,11 @@ import Driver.Util
 three servers, endpoint/tenant confinement (C09, C10)
 
 ops (strings hex-encoded, `-` = empty):
-  cfg <owner> <hmac> <rsa> <ecdsa> <jwks: -|kid:kty:alg,...> <aud> <iss> <ddoe>
-  mt <owner,owner,...|->                       MultiTenantVerifier(default = cfg `-`, tenants)
+  cfg <owner> <hmac> <rsa> <ecdsa> <jwks: -|kid:kty:alg,...> <aud> <iss> <ddoe> [<lit|load>]
+      lit: NewJWTVerifier(&LoadedConfig{…}) literal; load: auth.Config{…}.Load() as server.go does
+      (answers `load-error` when Load refuses the combination)
+  mt <owner,owner,...|-> [wire]                MultiTenantVerifier(default = cfg `-`, tenants);
+      wire: only if the default config is Enabled() or tenants exist (server.go), else no verifier
   tok <id> <alg> <kid: -|s:<hex>|num> <signer> <tamper> <shape> <exp> <nbf> <aud> <iss> <eps>
       signer: k:<owner>:<hmac|rsa|ecdsa|jwk.<kid>> | empty | pem | foreign | nosig | garbage
       tamper: none|hdr|pay|sig     shape: ok|seg2|seg4|b64|json|expstr|epsstr|noalg|algnum
@@ -32,12 +35,19 @@ structure St where
   toks : List (String × TokenFacts) := []
   ups : List String := []
   srvs : List (String × (Gin.Engine × Bool)) := []
+  raws : List (String × RawCfg) := []
+  /-- `mt … wire` decided that the port gets no verifier -/
+  noVerifier : Bool := false
 deriving Inhabited
 
 def b01 (s : String) : Bool := s = "1"
 
 def hexList (s : String) : List String :=
   if s = "-" ∨ s = "none" then [] else (s.splitOn ",").map hx
+
+/-- a claim list (`aud`, `piko.endpoints`): `none` = claim absent, else the elements, `-` = "" -/
+def claimList (s : String) : List String :=
+  if s = "none" then [] else (s.splitOn ",").map hx
 
 def parseKty : String → Option KeyType
   | "oct" => some .oct | "rsa" => some .rsa | "ec" => some .ec | "okp" => some .okp | _ => none
@@ -181,17 +191,38 @@ def confProxy (st : St) (res : RouteResult) (okStatus : String) : String :=
     else "502 no_available_upstreams sel=" ++ hexEnc routed ++ " stamp=-"
 
 def step (st : St) : List String → St × String
-  | ["cfg", owner, hm, rs, ec, jw, aud, iss, ddoe] =>
+  | "cfg" :: owner :: hm :: rs :: ec :: jw :: aud :: iss :: ddoe :: via =>
     match parseJwks jw with
     | none => (st, "bad-op")
     | some jwks =>
-      let c : Cfg := { hmac := b01 hm, rsa := b01 rs, ecdsa := b01 ec, jwks := jwks, audience := hx aud,
-                       issuer := hx iss, disableDisconnectOnExpiry := b01 ddoe }
-      ({ st with cfgs := (hx owner, c) :: st.cfgs.filter (fun p => p.1 ≠ hx owner) }, "ok")
+      let o := hx owner
+      if via = ["load"] then
+        let raw : RawCfg := { hmacSecret := b01 hm, rsaPEM := b01 rs, ecdsaPEM := b01 ec, jwksEndpoint := jwks,
+                              audience := hx aud, issuer := hx iss, disableDisconnectOnExpiry := b01 ddoe }
+        match raw.load with
+        | none => (st, "load-error")
+        | some c =>
+          ({ st with cfgs := (o, c) :: st.cfgs.filter (fun p => p.1 ≠ o),
+                     raws := (o, raw) :: st.raws.filter (fun p => p.1 ≠ o) }, "ok")
+      else if via = [] ∨ via = ["lit"] then
+        let c : Cfg := { hmac := b01 hm, rsa := b01 rs, ecdsa := b01 ec, jwks := jwks, audience := hx aud,
+                         issuer := hx iss, disableDisconnectOnExpiry := b01 ddoe }
+        ({ st with cfgs := (o, c) :: st.cfgs.filter (fun p => p.1 ≠ o),
+                   raws := st.raws.filter (fun p => p.1 ≠ o) }, "ok")
+      else (st, "bad-op")
   | ["mt", tenants] =>
     let ts := hexList tenants
     match st.cfgs.lookup "", ts.mapM (fun t => (st.cfgs.lookup t).map (fun c => (t, c))) with
-    | some d, some tl => ({ st with mt := { dflt := d, tenants := tl } }, "ok")
+    | some d, some tl => ({ st with mt := { dflt := d, tenants := tl }, noVerifier := false }, "ok")
+    | _, _ => (st, "bad-op")
+  | ["mt", tenants, "wire"] =>
+    let ts := hexList tenants
+    match st.raws.lookup "", ts.mapM (fun t => (st.raws.lookup t).map (fun c => (t, c))) with
+    | some d, some tl =>
+      (match wire d tl with
+       | none => (st, "load-error")
+       | some none => ({ st with mt := {}, noVerifier := true }, "ok none")
+       | some (some m) => ({ st with mt := m, noVerifier := false }, "ok verifier"))
     | _, _ => (st, "bad-op")
   | ["tok", id, alg, kid, signer, tamper, shape, exp, nbf, aud, iss, eps] =>
     let alg' := hx alg
@@ -202,7 +233,7 @@ def step (st : St) : List String → St × String
           signer := if tamper = "none" then sg else .other,
           -- every signature the harness produces for an ES* header is 64 bytes, except `nosig`
           sigLenOk := !(algFam alg' == .es) || (alg' == "ES256" && signer != "nosig"),
-          exp := e, nbf := n, aud := hexList aud, iss := hx iss, endpoints := hexList eps }
+          exp := e, nbf := n, aud := claimList aud, iss := hx iss, endpoints := claimList eps }
       ({ st with toks := (tokName id, f) :: st.toks.filter (fun p => p.1 ≠ tokName id) }, "ok")
     | _, _, _, _ => (st, "bad-op")
   | ["req", x, a, tenant] =>
@@ -210,7 +241,8 @@ def step (st : St) : List String → St × String
     | none => (st, "bad-op")
     | some r =>
       let tag := if st.mt.tenants = [] then "auth " else "tenant "
-      (st, tag ++ showOutcome (authorize (factsOf st) st.mt 0 r))
+      if st.noVerifier then (st, "auth no-verifier")
+      else (st, tag ++ showOutcome (authorize (factsOf st) st.mt 0 r))
   | "srv" :: kind :: auth :: rest =>
     let (registry, cluster, keys) := match rest with
       | [r, c, k] => (b01 r, b01 c, hexList k)
@@ -221,8 +253,9 @@ def step (st : St) : List String → St × String
     match tbl with
     | none => (st, "srv no-table")
     | some t =>
-      let e := Gin.build (Gin.enabled (guardOn (b01 auth) registry cluster) t)
-      ({ st with srvs := (kind, (e, b01 auth)) :: st.srvs.filter (fun p => p.1 ≠ kind) },
+      let authOn := b01 auth && !st.noVerifier
+      let e := Gin.build (Gin.enabled (guardOn authOn registry cluster) t)
+      ({ st with srvs := (kind, (e, authOn)) :: st.srvs.filter (fun p => p.1 ≠ kind) },
         "srv routes " ++ showRoutes e ++ (if e.bad then " BAD" else ""))
   | ["hit", kind, method, path, x, a, tenant] =>
     match st.srvs.lookup kind, parseReq x a tenant with
